@@ -2,6 +2,12 @@
 
 package server
 
+import (
+	"sync/atomic"
+
+	"go.lsp.dev/protocol"
+)
+
 // Read-only observation points for the /verif correspondence harness.
 // Compiled only with -tags verif; nothing here changes behaviour.
 
@@ -39,4 +45,15 @@ func verifMirror(st serverSettings) VerifSettings {
 // VerifGetSettings returns the settings currently in force.
 func (s *Server) VerifGetSettings() VerifSettings {
 	return verifMirror(s.getSettings())
+}
+
+// VerifPublishHook, when set, is called by every background analysis when it reaches the
+// point of publishing (before the publish lock is taken). The harness blocks in it to
+// choose the order in which analyses publish.
+var VerifPublishHook atomic.Pointer[func(uri protocol.DocumentURI, content string)]
+
+func verifPublishPoint(uri protocol.DocumentURI, content string) {
+	if h := VerifPublishHook.Load(); h != nil {
+		(*h)(uri, content)
+	}
 }
